@@ -2018,7 +2018,7 @@ struct Value {
         const VItem *end    = (h_item + obj.Size());
 
         while (h_item != end) {
-            if ((h_item != nullptr) && !(h_item->Value.isUndefined())) {
+            if ((h_item != nullptr) && !(h_item->Value.pointsToUndefined())) {
                 stream += JSONotation::QuoteChar;
                 JSONUtils::Escape(h_item->Key.First(), h_item->Key.Length(), stream);
                 stream += JSONotation::QuoteChar;
@@ -2048,7 +2048,7 @@ struct Value {
         const Value *end  = arr.End();
 
         while (item != end) {
-            if (!(item->isUndefined())) {
+            if (!(item->pointsToUndefined())) {
                 stringifyValue(*item, stream, precision);
                 stream += JSONotation::CommaChar;
             }
@@ -2127,6 +2127,17 @@ struct Value {
 
     inline bool isUndefined() const noexcept {
         return (Type() == ValueType::Undefined);
+    }
+
+    // Undefined itself, or a pointer (to a pointer ...) to an Undefined value: nothing to print, so the member is left out.
+    inline bool pointsToUndefined() const noexcept {
+        const Value *val = this;
+
+        while ((val->Type() == ValueType::ValuePtr) && (val->value_ != nullptr)) {
+            val = val->value_;
+        }
+
+        return val->isUndefined();
     }
 
     inline bool isObject() const noexcept {
